@@ -252,6 +252,38 @@ theorem never_without_path (env : Env) (hv : validate env.cfg = true) (t0 : Nat)
   simp only [live_not_expiredAt hl]
   rfl
 
+/-- **valid_antitone.** `check_path_expiry = Valid` is antitone in the clock: a path that still has more than
+    the threshold left at `t'` had more than the threshold left at every earlier instant. -/
+theorem valid_antitone (p : Path) (t t' thr : Nat) (hle : t ≤ t')
+    (h : checkExpiry p t' thr = .valid) : checkExpiry p t thr = .valid := by
+  unfold checkExpiry at h ⊢
+  generalize p.expiryNs = x at h ⊢
+  split at h
+  · cases h
+  · split at h
+    · cases h
+    · rw [if_neg (by omega), if_neg (by omega)]
+
+/-- **empty_slot_none_valid.** The contrapositive of `never_without_path`, in the form the correspondence
+    harness uses to classify a sender that finds the active slot empty: when the slot is empty after the
+    lookup the worker executed at `te` (reachable state, validated configuration), NO cached path had more
+    than `min_expiry_threshold` left at `te` - hence none has at `max now te` for whatever clock value
+    `now` a sender asks with, also one that lies before `te` (a clock that stepped back).  Such a state is
+    the open class `only-near-expiry-paths` (or an empty / expired cache), never a path the worker
+    overlooked. -/
+theorem empty_slot_none_valid (env : Env) (hv : validate env.cfg = true) (t0 : Nat) (ops : List Op)
+    (te : Nat) (resp : Resp) (sc0 sc1 : Nat → Int) (ord : List Nat) (b : Nat)
+    (hnone : (fetchAndUpdate env (run env t0 ops) te resp sc0 sc1 ord b).active = none) (now : Nat) :
+    ∀ e ∈ (fetchAndUpdate env (run env t0 ops) te resp sc0 sc1 ord b).cached,
+      checkExpiry e (max now te) env.cfg.minExpiryThreshold ≠ .valid := by
+  intro e he hval
+  have hf := validate_facts hv
+  have hw := run_wf env t0 ops hf.1
+  have hte := valid_antitone e te (max now te) env.cfg.minExpiryThreshold (Nat.le_max_right now te) hval
+  obtain ⟨p, hp, _⟩ := fetchAndUpdate_has_path env (run env t0 ops) te resp sc0 sc1 ord b hf.1 hw.1 ⟨e, he, hte⟩
+  rw [hnone] at hp
+  cases hp
+
 /- **never_without_path** at full strength (FALSE on the current code – known findings
    `C06:without-path:active-expired-between-ticks` and `C06:without-path:only-near-expiry-paths`):
      in every reachable state, at every instant `now`: some cached path is not expired at `now`
@@ -301,6 +333,25 @@ theorem without_path_near_expiry_witness :
   have hn : sendCached (run envT 0 opsN) (1 * NS) = none := by decide
   rw [hn] at hp
   cases hp
+
+/-- non-vacuity of `empty_slot_none_valid`: a validated configuration and a lookup after which the slot is empty
+    although the cache is not (the near-expiry witness above) -/
+example : validate envT.cfg = true ∧
+    (fetchAndUpdate envT (run envT 0 []) 0 (.ok [pN]) scT scT [1] 0).active = none ∧
+    pN ∈ (fetchAndUpdate envT (run envT 0 []) 0 (.ok [pN]) scT scT [1] 0).cached := by decide
+
+/-- the clock steps back: expiry at 6 s, threshold 5 s.  At the lookup instant te = 1.5 s the path has 4.5 s left
+    (near expiry, the slot stays empty); a sender whose clock stepped back to 0.5 s sees 5.5 s left (valid by its own
+    clock) and still gets nothing - judged at `max now te` it is the near-expiry class, which is what
+    `empty_slot_none_valid` guarantees (corpus/C06/040). -/
+private def pS : Path := ⟨1, some 6, 1, 2, some [⟨1, 3⟩, ⟨2, 2⟩], some 3, some 2⟩
+example :
+    (fetchAndUpdate envT (run envT 0 []) (3 * NS / 2) (.ok [pS]) scT scT [1] 0).active = none ∧
+    pS ∈ (fetchAndUpdate envT (run envT 0 []) (3 * NS / 2) (.ok [pS]) scT scT [1] 0).cached ∧
+    checkExpiry pS (NS / 2) envT.cfg.minExpiryThreshold = .valid ∧
+    checkExpiry pS (max (NS / 2) (3 * NS / 2)) envT.cfg.minExpiryThreshold = .near ∧
+    sendCached (fetchAndUpdate envT (run envT 0 []) (3 * NS / 2) (.ok [pS]) scT scT [1] 0) (NS / 2) = none := by
+  decide
 
 /- (kept for reference) between maintenance ticks: the active path is only
    re-evaluated on maintenance ticks and issue deliveries; after a failed fetch the next tick is a
